@@ -58,12 +58,16 @@ def curated(tier):
         for side in ("+", "-", "mix"):
             add("geom_all", cell, p={"itype": "interior_facet", "side": side})
         add("geom_all", cell, p={"itype": "exterior_facet"})
-    from vf.corpus import ZOO
+    from vf.corpus import ARG_PAIRS, ZOO
+
+    for k, (te, tr) in enumerate(ARG_PAIRS[:4]):
+        add("arg_pair", ("triangle", "quadrilateral")[k % 2], p={"test": list(te), "trial": list(tr), "itype": ("exterior_facet", "interior_facet")[k % 2]})
 
     for k, (cell, fam, deg, var, disc) in enumerate(ZOO):
         if cell == "interval":
             continue
         add("family_zoo", cell, p={"family": fam, "degree": deg, "variant": var, "discontinuous": disc, "itype": ("exterior_facet", "interior_facet")[k % 2]})
+    add("int_literals", "triangle")
     add("facet_plain", "prism")
     add("facet_plain", "prism", p={"degree": 2})
     # mixed-dimensional forms (functions on the facet mesh), sub-meshes of codimension 0, ridge integrals
